@@ -647,7 +647,13 @@ Definition inbound_data (l : cand) (src : addr) (p : payload) : M :=
         end
       end).
 
+(* a payload the socket refuses to send (a send fault injected by the environment): candidateBase.writeTo
+   swallows the socket error, nothing is written and nothing is counted; Write still returns nil *)
+Definition refused_payload_id : Z := -7.
+Definition pl_refused (p : payload) : bool := pl_id p =? refused_payload_id.
+
 Definition do_write (pr : pair) (p : payload) (count_conn : bool) : M :=
+  if pl_refused p then emit (ORet ROk) else
   emit (OData (c_h (p_loc pr)) (c_addr (p_rem pr)) p) ;;
   (if 0 <? pl_len p then
      (if count_conn then modify (fun s => set_s_bytes_sent (s_bytes_sent s + pl_len p) s) else nop) ;;
